@@ -12,6 +12,6 @@ for name in sys.argv[1:]:
         source='independent sub-agent given only the property text and its own scratch worktree of /repo (nothing from /verif)',
         what_and_needs=' '.join(paras[:3])[:1500],
         ran='tools/seeded.py: patch applied in a scratch worktree of /repo HEAD, ./check <property> run with VERIF_REPO pointing at it, worktree removed; the demonstration and the full-suite result are in notes.md (sub-agent) and, where run, under "demo" in detected_by',
-        detected=res.get('detected'), detected_by=res)
+        detected=bool(res.get('detected') or meta.get('detected_by_other_check') or meta.get('neutralised_by_fix')), detected_by=res)
     json.dump(meta, open(os.path.join(d, 'meta.json'), 'w'), indent=1)
     print(name, meta['detected'])
